@@ -24,6 +24,7 @@ C05 regress/C05-panic-5491909683352039282.json 6ab2777
 C17 regress/C17-gcrange-wbuf-race.json e04f813
 C11 regress/C11-proto-roundtrip-reply-3369049078810884284.json 5896adf
 C07 regress/C07-shutdown-during-gc-3563302134185838027.json 93602c9
+C15 regress/C15-second-route-reload-1201409606913257291.json 93361d6
 C12 regress/C12-append-accounting-race-1987312816409268858.json c76529b
 C13 regress/C13-hint-lookup-eof-1651978268130638736.json 6295877
 C05 regress/C05-gc-vs-hint-loader-3713217905197791706.json 5cb5596
